@@ -14,4 +14,20 @@ S("C02", "scalar", "F7-folded-more-indented", ("a\n  word word word word word wo
 S("C02", "value", "F10-redefined-handle", (("set", [("s", 1)]), {"tags": {"!!": "tag:example.com,2000:"}}, False), "fixed f63df50")
 S("C02", "value", "F10-redefined-primary", (("l", [("s", "a")]), {"tags": {"!": "!my-"}, "default_style": '"'}, False), "fixed f63df50")
 S("C02", "value", "F4-nonascii-prefix", (("l", [("s", 1)]), {"tags": {"!e!": "tag:\xe9x.org,2000:"}}, True), "fixed b3af4ec")
-print("ok")
+
+
+# ---- C03
+S("C03", "productions", "F1-U-overflow", ('"\\UFFFFFFFF"', False), "fixed 1e19272")
+S("C03", "productions", "F1-U-110000", ('- "\\U00110000"\n- x', True), "fixed 1e19272")
+S("C03", "productions", "F2-yaml-digits", ("%YAML 1." + "7" * 5000 + "\n--- a\n", False), "fixed bbdbd41")
+S("C03", "productions", "F2-yaml-digits-major", ("%YAML " + "7" * 4301, False), "fixed bbdbd41")
+
+# ---- C05 (events as plain-data streams)
+_doc = lambda root, **kw: dict({"version": None, "tags": None, "explicit_start": False, "explicit_end": False, "root": root}, **kw)
+S("C05", "wellformed", "F4-nonascii-prefix", ([_doc(("scalar", False, "tag:\xe9x.org,2000:a", (False, False), "v", None), tags={"!e!": "tag:\xe9x.org,2000:"})], {}), "fixed b3af4ec")
+S("C05", "wellformed", "F10-redefined-secondary", ([_doc(("seq", False, "tag:yaml.org,2002:str", False, None, []), tags={"!!": "tag:example.com,2000:"})], {}), "fixed f63df50")
+S("C05", "wellformed", "F10-redefined-primary", ([_doc(("scalar", False, "!local", (False, False), "v", None), tags={"!": "!my-"})], {}), "fixed f63df50")
+S("C05", "wellformed", "F8-empty-root-elided-tag", ([_doc(("scalar", False, "tag:yaml.org,2002:null", (True, False), "", None))], {}), "fixed fc98091")
+S("C05", "scalar", "F7-folded", ([_doc(("scalar", False, None, (True, True), "a\n  word word word word word word word word end\nb", ">"))], {"width": 20}), "fixed 4c8ba10")
+S("C05", "scalar", "F5-nel", ([_doc(("scalar", False, None, (True, True), "a\x85b", None))], {"allow_unicode": True}), "fixed 93695ab")
+print("ok2")
